@@ -85,7 +85,8 @@ package service
 // evaluatePushPullCase classifies the request against what is stored.
 //@ func (*PushPullHandler).evaluatePushPullCase
 //@   mode wrap
-//@   props C13 C17 C16 C05
+//@   props C13 C17 C16 C05 C12 C06
+//@   requires[lock-held] its.lock != nil && sel(G.held, its.lock)
 //@   requires handlerWF(its) && its.datatypeDoc == nil && (its.gotPushPullPack.CheckPoint != nil ==> allocated(its.gotPushPullPack.CheckPoint))
 //@   ensures[error]          (result1 != nil) == (result0 == caseError)
 //@   ensures[nothing]        (result0 == caseMatchNothing) == (result1 == nil && its.datatypeDoc == nil)
@@ -145,7 +146,7 @@ package service
 // The lock name identifies (collection, key): different datatypes never share a lock.
 //@ func (*PushPullHandler).getLockKey
 //@   mode math
-//@   props C12 C13
+//@   props C12 C13 C06 C05
 //@   requires its.collectionDoc != nil
 //@   ensures[names-collection-and-key] result == strcat("PP:", dec(its.collectionDoc.Num), ":", its.Key)
 //@   modifies nothing
